@@ -481,6 +481,19 @@ def gen_cpucount(rng, fam):
             "sysconf": None, "cpuinfo": gen_cpuinfo(rng), "stat": gen_stat(rng), "core": [], "sib": []}
     if fam == "packages":
         case["cpuinfo"] = gen_packages(rng)
+        if rng.random() < 0.2:
+            # not kernel format (the specification is silent; model vs implementation only): sections that lack
+            # one of the two fields, a last section without the closing blank line
+            secs = []
+            for b in case["cpuinfo"]["blocks"]:
+                lines = [b"processor\t: %d" % b["processor"]]
+                if rng.random() < 0.7:
+                    lines.append(b"physical id\t: %d" % b["physical_id"])
+                if rng.random() < 0.7:
+                    lines.append(b"cpu cores\t: %d" % b["cores"])
+                secs.append(b"\n".join(lines) + b"\n")
+            raw = b"\n".join(secs) + (b"\n" if rng.random() < 0.7 else b"")
+            case["cpuinfo"] = hx(raw)
         if rng.random() < 0.2:                       # a deprecated-name directory listing that is empty: still fallback
             case["sib"] = []
     elif fam == "kernel_topology":
